@@ -220,6 +220,50 @@ def reply_harness(mtype):
     return h
 
 
+def pending_kept_clauses(pre, post, m):
+    """'at most one TestRequest is outstanding at a time': the record of the outstanding TestRequest is dropped only
+    by its echo (heartbeat.cleared_only_by_echo) or by a disconnect - no other inbound message clears it (a cleared
+    record lets the watchdog send a second TestRequest while the first is unanswered, and turns the late correct
+    echo into a 'wrong id' Logout of a live peer)."""
+    connected = post.st > 3
+    if pre.R is None:
+        return [("inbound.no_pending_invented", Implies(connected, post.R is None))]
+    return [("inbound.pending_kept_by_other_messages",
+             Implies(connected, Eq(post.R, pre.R) if post.R is not None else False))]
+
+
+def pending_kept_harness(I):
+    conn, pre, post, m, k0 = ic.explore_pm(I, LOGGED_ON, comp_ids_ok=True, writer=True, inv_i2=False)
+    cl = pending_kept_clauses(pre, post, m)
+    if pre.R is not None:
+        cl = [(n, Implies(pre.R >= 1, c)) for n, c in cl]  # A-CLOCK: an id is int(time.time()) of an earlier moment
+    return [(n, Implies(Not(Eq(m.type, "0")), c)) for n, c in cl]
+
+
+def reply_twice_harness(I):
+    """Two inbound TestRequests in a row (any ids, any numbers): the second one is answered like the first -
+    the reply clauses hold from the state the first call left, whatever else that call recorded."""
+    conn, pre, post, m, k0 = ic.explore_pm(I, LOGGED_ON, comp_ids_ok=True, writer=True, inv_i2=False, mtype="1")
+    c = I.ctx
+    sess = conn.f["_session"].f
+    fixed = {"8": "FIX.4.4", "49": sess["target_comp_id"], "56": sess["sender_comp_id"]}
+    msg2 = sc.mk_msg(I, "n", mtype="1", fixed=fixed)
+    m2 = sc.emsg(I, "n", mtype="1", register=("34", "43", "112"))
+    raw = sc.FrameStr(z3.String("n_raw"), True, sc.Frame(m2.type, None, None, msg2, False))
+    raw.view.has_seq = And(m2.has("34"), m2.int_ok("34"))
+    raw.view.seq = m2.ival("34")
+    pre2 = post
+    out = sc.run(I, I.getattr(conn, "_process_message"), [msg2, raw])
+    sc.observe(I, conn, out, pre)
+    post2 = sc.eview(I, conn, out)
+    cl = reply_clauses(pre2, post2, m2, "1")
+    keep = ("testrequest.answered_once", "testrequest.same_id", "testrequest.no_unsolicited_heartbeat")
+    cl = [("twice." + n, Implies(pre2.st > 3, cnd)) for n, cnd in cl if n in keep]
+    if pre.R is not None:
+        cl = [(n, Implies(pre.R >= 1, cnd)) for n, cnd in cl]
+    return cl
+
+
 # ---------------------------------------------------------------------------
 # timing lemmas over the tick clauses (linear real arithmetic, all H >= 1, all eps in [0, 1])
 # ---------------------------------------------------------------------------
@@ -300,9 +344,16 @@ def witness_case(task, cover):
         return sc.conn_native_case("tick", cover["inputs"], with_msg=False)
     if task.name == "send_test_req":
         return sc.conn_native_case("send_test_req", cover["inputs"], with_msg=False)
+    if task.name == "reply_testrequest[twice]":
+        c1 = sc.conn_native_case("process_message_twice", cover["inputs"], comp_ids_ok=True, mtype="1")
+        c2 = sc.conn_native_case("process_message_twice", cover["inputs"], msg_name="n", comp_ids_ok=True, mtype="1")
+        c1["msg2"] = c2["msg"]
+        return c1
     if task.name.startswith("reply"):
         return sc.conn_native_case("process_message", cover["inputs"], comp_ids_ok=True,
                                    mtype="1" if task.name == "reply_testrequest" else "0")
+    if task.name == "inbound_keeps_pending":
+        return sc.conn_native_case("process_message", cover["inputs"], comp_ids_ok=True)
     return None
 
 
@@ -334,6 +385,19 @@ def violates(rp, obs):
             return False
         pre["H"] = pre.get("H", 30)
         cls = tick_clauses(pre, post, times[0], times[1] if len(times) > 1 else None)
+    elif task == "reply_testrequest[twice]":
+        if pre.R is not None and pre.R < 1:
+            return False
+        mid = concrete_post({"post": obs["mid"], "outcome": "ret"})
+        m2 = concrete_msg({"msg": case["msg2"]})
+        if not mid.st > 3:
+            return False
+        cls = [("twice." + n, c) for n, c in reply_clauses(mid, post, m2, "1")]
+    elif task == "inbound_keeps_pending":
+        m = concrete_msg(case)
+        if m.type == "0" or (pre.R is not None and pre.R < 1):
+            return False
+        cls = pending_kept_clauses(pre, post, m)
     elif task.startswith("reply"):
         m = concrete_msg(case)
         if pre.R is not None and pre.R < 1:
@@ -356,6 +420,10 @@ TASKS = [
     Task("reply_testrequest", reply_harness("1"), ic.pm_cfg(), [CONN + "._process_testrequest"], native="conn",
          timeout_ms=20000),
     Task("reply_heartbeat", reply_harness("0"), ic.pm_cfg(), [CONN + "._process_heartbeat"], native="conn",
+         timeout_ms=20000),
+    Task("reply_testrequest[twice]", reply_twice_harness, ic.pm_cfg(), [CONN + "._process_testrequest"], native="conn",
+         timeout_ms=20000),
+    Task("inbound_keeps_pending", pending_kept_harness, ic.pm_cfg(), [CONN + "._process_message"], native="conn",
          timeout_ms=20000),
     Task("lemmas", lemma_harness, Config, []),
     Task("mustfail", tick_mustfail, tick_cfg(), [], expect_refuted=True),
